@@ -47,15 +47,18 @@ class FactorRegistry:
 
 
 def make_param_cholesky(h, L_sym, name="chol"):
-    """cholesky stub for a matrix the harness built as L_sym @ L_sym.T (+ nothing else).
-    Certifies the argument equals L_sym L_sym^T (checked obligation) and returns L_sym."""
+    """cholesky contract for a matrix the harness built as L_sym @ L_sym.T.  Symbolic mode:
+    certifies (obligation) that the argument equals L_sym L_sym^T and returns L_sym.  Replay
+    mode: the same assertion numerically, then the real LAPACK factorisation."""
     calls = [0]
 
     def chol(K):
         K = np.asarray(K)
         calls[0] += 1
         h.eq(f"{name}.argument_is_LLt[{calls[0]}]", K, L_sym @ L_sym.T)
-        return L_sym.copy()
+        if h.sym:
+            return L_sym.copy()
+        return np.linalg.cholesky(K)
 
     return chol
 
